@@ -1,5 +1,5 @@
 // C11: an interpreted model never shows a stale calculated value.
-// Model: X1 (2 named elements), S1 in B(X1) with data, D1 := t1(X1,S1), D2 := t2(D1), A1 := p(D2,X1)
+// Model: X1 (2 named elements), S1 in B(X1) with data, term-function F1, D1 := t1(X1,S1,F1), D2 := t2(D1), A1 := p(D2,X1,F1)
 // with templates chosen symbolically; everything calculated; then K mutators with symbolic kind and
 // arguments.  Oracle: a model rebuilt from the records and base/structure data of the final state and recalculated from scratch:
 // every constituent that reports a calculated value must report exactly that value; structure data
@@ -15,9 +15,10 @@ using namespace ccl;
 using namespace ccl::semantic;
 using object::Factory;
 static int pick(int n, const char* name) { return sym_concretize_i32(sym_range(0, n - 1, name)); }
-static const char* const T1[] = {"X1\\S1", "X1", "S1", "X1\xE2\x88\xAAS1"};
+static const char* const T1[] = {"X1\\S1", "X1", "S1", "F1[X1]\xE2\x88\xAAS1"};    // the last one depends on the term-function F1
 static const char* const T2[] = {"D1", "D1\xE2\x88\xAAX1", "\xE2\x84\xAC(D1)", "X1\\D1"};
-static const char* const PA[] = {"D2=D2", "card(D1)=card(X1)", "D1=X1", "card(X1)=2"};
+static const char* const PA[] = {"D2=D2", "card(D1)=card(X1)", "F1[D1]=X1", "card(X1)=2"};
+static const char* const FDEF[] = {"[\xCE\xB1\xE2\x88\x88\xE2\x84\xAC(X1)] \xCE\xB1", "[\xCE\xB1\xE2\x88\x88\xE2\x84\xAC(X1)] \xCE\xB1\\\xCE\xB1", "[\xCE\xB1\xE2\x88\x88\xE2\x84\xAC(X1)] X1\\\xCE\xB1", "[\xCE\xB1\xE2\x88\x88X1] \xCE\xB1"};
 static const char* const NEWDEF[] = {"X1", "S1", "X1\\S1", "X1\xE2\x88\xAA", "D2", "\xE2\x84\xAC(X1)", ""};
 
 static std::string valueOf(const RSModel& m, EntityUID uid) {
@@ -31,10 +32,11 @@ extern "C" void harness_main() {
   RSModel m;
   const auto x1 = m.Emplace(CstType::base);
   const auto s1 = m.Emplace(CstType::structured, "\xE2\x84\xAC(X1)");
+  const auto f1 = m.Emplace(CstType::function, FDEF[0]);
 #ifdef FIXED_TEMPLATES
-  const auto d1 = m.Emplace(CstType::term, T1[0]);
+  const auto d1 = m.Emplace(CstType::term, T1[3]);
   const auto d2 = m.Emplace(CstType::term, T2[1]);
-  const auto a1 = m.Emplace(CstType::axiom, PA[1]);
+  const auto a1 = m.Emplace(CstType::axiom, PA[2]);
 #else
   const auto d1 = m.Emplace(CstType::term, T1[pick(4, "t1")]);
   const auto d2 = m.Emplace(CstType::term, T2[pick(4, "t2")]);
@@ -44,7 +46,7 @@ extern "C" void harness_main() {
   m.Values().AddBasicElement(x1, "b");
   m.Values().SetStructureData(s1, Factory::SetV({1}));
   m.Calculations().RecalculateAll();
-  std::vector<EntityUID> all{x1, s1, d1, d2, a1};
+  std::vector<EntityUID> all{x1, s1, d1, d2, a1, f1};
   static const char* const OPNAME[] = {"AddBasicElement", "SetBasicText", "SetStructureData", "ResetDataFor", "SetExpressionFor", "Erase", "Emplace", "Calculate", "RecalculateAll"};
   std::string history;
   for (int step = 0; step < K; ++step) {
@@ -64,11 +66,16 @@ extern "C" void harness_main() {
       break;
     }
     case 2: m.Values().SetStructureData(s1, pick(2, "sdata") ? Factory::SetV({2}) : Factory::SetV({1, 2})); break;
-    case 3: m.Values().ResetDataFor(all[(size_t)pick(5, "reset")]); break;
-    case 4: m.SetExpressionFor(all[(size_t)(2 + pick(3, "target"))], NEWDEF[pick(7, "newdef")]); break;
-    case 5: { const auto t = all[(size_t)pick(5, "erase")]; if (m.Contains(t)) m.Erase(t); break; }
+    case 3: m.Values().ResetDataFor(all[(size_t)pick(6, "reset")]); break;
+    case 4: {
+      const int t = pick(4, "target");
+      if (t == 3) m.SetExpressionFor(f1, FDEF[pick(4, "new-function")]);     // editing a callable: its callers must be invalidated too
+      else m.SetExpressionFor(all[(size_t)(2 + t)], NEWDEF[pick(7, "newdef")]);
+      break;
+    }
+    case 5: { const auto t = all[(size_t)pick(6, "erase")]; if (m.Contains(t)) m.Erase(t); break; }
     case 6: all.push_back(m.Emplace(CstType::term, NEWDEF[pick(7, "emplace-def")])); break;
-    case 7: { const auto t = all[(size_t)pick(5, "calc")]; if (m.Contains(t)) m.Calculations().Calculate(t); break; }
+    case 7: { const auto t = all[(size_t)pick(6, "calc")]; if (m.Contains(t)) m.Calculations().Calculate(t); break; }
     default: m.Calculations().RecalculateAll(); break;
     }
   }
